@@ -214,7 +214,8 @@ Definition tstep (c : cfg) (t : tst) (e : ev) : tst :=
       mkT (opened t) (lastread t) (lastpack t) (stored t) (dpend t) (qpend t) (dok t) (qok t)
           (wrote t) true (graceful t) (bad t) (pack_unhandled t) (pack_disorder t) (pack_closed t)
           (lifecycle_bad t) (ntd t) (fnil t)
-  | ECall KStopWait _ =>
+  | ECall KStopWait _ | ECall KShutdown _ =>
+      (* a graceful stop, by the user (reason nil) or by the engine's shutdown (with a reason) *)
       mkT (opened t) (lastread t) (lastpack t) (stored t) (dpend t) (qpend t) (dok t) (qok t)
           (wrote t) (forced t) true (bad t) (pack_unhandled t) (pack_disorder t) (pack_closed t)
           (lifecycle_bad t) (ntd t) (fnil t)
@@ -223,8 +224,9 @@ Definition tstep (c : cfg) (t : tst) (e : ev) : tst :=
       mkT (opened t) (lastread t) (lastpack t) (stored t) (dpend t) (qpend t) (dok t) (qok t)
           (wrote t) (forced t) (graceful t) (bad t) (pack_unhandled t) (pack_disorder t) (pack_closed t)
           (lifecycle_bad t) (ntd t) false
-  | ERet KStopWait RNil _ snap =>
-      (* StopAndWait may return nil only from a drained pipeline (the model's AReturn) *)
+  | ERet KStopWait RNil _ snap | ERet KShutdown RNil _ snap =>
+      (* StopAndWait - and equally StopAll + Wait + persister Wait of a shutdown - may return nil only from
+         a drained pipeline (the model's AReturn): the drain does not depend on the reason of the stop *)
       set_bad (negb (drained (c_v1 c) (c_slow c) (c_nsrc c) snap t)) t
   | ERet KForce RNil _ _ =>
       mkT (opened t) (lastread t) (lastpack t) (stored t) (dpend t) (qpend t) (dok t) (qok t)
@@ -242,11 +244,11 @@ Definition tstep (c : cfg) (t : tst) (e : ev) : tst :=
 
 Definition track (c : cfg) (l : list ev) : tst := fold_left (tstep c) l t0.
 
-(* ---------- C06: the state at the moment StopAndWait returned ---------- *)
+(* ---------- C06: the state at the moment StopAndWait (or the shutdown sequence) returned ---------- *)
 Fixpoint split_at_ret (l pre : list ev) : option (list ev * rcls * snapshot * list ev) :=
   match l with
   | [] => None
-  | ERet KStopWait c _ snap :: r => Some (rev pre, c, snap, r)
+  | ERet KStopWait c _ snap :: r | ERet KShutdown c _ snap :: r => Some (rev pre, c, snap, r)
   | e :: r => split_at_ret r (e :: pre)
   end.
 
@@ -294,6 +296,11 @@ Fixpoint boot_quiet (l : list ev) : bool :=
   | _ :: r => boot_quiet r
   end.
 
+(* cases without a process restart say so: the next start then goes through the very connector instances the
+   force-stopped run used, so it succeeds only if that run released every one of them *)
+Fixpoint same_proc (l : list ev) : bool :=
+  match l with [] => false | ESameProc :: _ => true | _ :: r => same_proc r end.
+
 Fixpoint last_status_force (l : list ev) (acc : bool) : bool :=
   match l with
   | [] => acc
@@ -338,7 +345,7 @@ Definition mon_c12 (c : cfg) (hung : bool) (l : list ev) : bool :=
       | Some rest =>
           (* failed-by-force-stop, no automatic restart *)
           watch rest (last_status_force l false) (graceful t)
-          && match after_boot rest with Some r => boot_quiet r | None => false end
+          && match after_boot rest with Some r => boot_quiet r | None => same_proc rest end
           && resume_ok c l
           && match after_restart l with Some (snap, _) => packs_below l snap | None => false end
       end
